@@ -42,16 +42,13 @@ THEOREMS = [
     "C20_percentile_least", "C20_percentile_fewest", "C20_percentile_monotone", "C20_scaling",
     "C20_order_check_sound", "C20_binary_search",
 ]
-THEOREMS_BASE = [  # Properties/C20Base.v (over R, stdlib real axioms only)
+THEOREMS_BASE = [  # Properties/C20Base.v (over R, stdlib real axioms only); each is the conjunction of the clauses about one function
     "C20_contribution_identity",
-    "C20_circular_is_minus_dist2", "C20_circular_order", "C20_circular_level_set_is_disc", "C20_circular_rotation_invariant",
-    "C20_upwind_is_projection", "C20_upwind_scale_invariant", "C20_upwind_reversal", "C20_upwind_of_projected_cell",
-    "C20_upwind_level_sets_perpendicular",
-    "C20_crosswind_is_minus_perp2", "C20_crosswind_is_min_distance", "C20_pythagoras", "C20_crosswind_reversal_scale",
-    "C20_crosswind_reflection",
-    "C20_sector_range", "C20_sector_cos", "C20_sector_is_minus_angle", "C20_sector_closed_form",
-    "C20_sector_zero_iff_upwind_ray", "C20_sector_level_set_is_cone", "C20_sector_reflection", "C20_sector_scale_invariant",
-    "C20_sector_at_tower",
+    "C20_circular_is_minus_dist2",   # formula; nearer <-> larger; super-level sets are discs; rotation about the tower
+    "C20_upwind_is_projection",      # formula; positive scaling; reversal; = g of the projected cell; perpendicular shifts
+    "C20_crosswind_is_minus_perp2",  # -(dist to the foot)^2; foot is nearest; Pythagoras; reversal / non-zero scaling; mirror
+    "C20_sector_is_minus_angle",     # cos; -acos; closed form -|atan2(cross,dot)|; 0 iff on the upwind ray; cones; mirror
+    "C20_sector_all_inputs",         # range [-pi, 0]; positive scaling of wind / displacement; value at the tower
 ]
 TRUSTED = [
     "Model/SourceArea.v is hand-written; tied to utils.get_source_area, the source_area_* base functions and plotting.footprint.extract_percentile_contour (+ _maybe_slice_level) by exact differential execution on dyadic inputs",
@@ -1165,6 +1162,169 @@ def case_size(c):
     return int(np.asarray(c["f"] if c["kind"] == "gsa" else c["flx"]).size)
 
 
+# ---------------------------------------------------------------------------------------------
+# base functions: their four semantic statements on the real code (independent float formulas, no model)
+
+ORACLE_REL = 1e-9
+
+
+def _base_arrays(h):
+    np = _impl()[0]
+    X = np.array(h["X"], dtype=h.get("x_dtype", None))
+    Y = np.array(h["Y"], dtype=h.get("y_dtype", None))
+    return X, Y, tuple(h["mp"]), tuple(h["wind"])
+
+
+def base_semantics(h):
+    """the semantic statement of one base function for one call.  h: {fn, X, Y, mp, wind} (lists).  -> [(sig, text)]"""
+    np, U, _ = _impl()
+    fn = h["fn"]
+    if fn == "contribution":
+        f = np.array(h["flx"], dtype=h.get("dtype", "float64"))
+        keep = f.copy()
+        try:
+            g = U.source_area_contribution(f)
+        except Exception as e:
+            return [("base:raises", "source_area_contribution raised %s: %s" % (type(e).__name__, e))]
+        if not isinstance(g, np.ndarray) or g.shape != f.shape or g.dtype != f.dtype or not np.array_equal(g, f, equal_nan=(f.dtype.kind == "f")):
+            return [("base:contribution-not-copy", "source_area_contribution(flx) differs from flx")]
+        if f.size and np.shares_memory(g, f):
+            return [("base:contribution-aliases-input", "source_area_contribution(flx) shares memory with flx")]
+        if f.size and f.dtype.kind in "fi":
+            g[...] = g + 1
+            if not np.array_equal(f, keep, equal_nan=(f.dtype.kind == "f")):
+                return [("base:contribution-aliases-input", "writing to the result of source_area_contribution changed flx")]
+        return []
+    X, Y, mp, wind = _base_arrays(h)
+    xm, ym = float(mp[0]), float(mp[1])
+    u, v = float(wind[0]), float(wind[1])
+    sp = math.hypot(u, v)
+    if sp == 0.0 and fn != "circular":
+        return []
+    try:
+        with np.errstate(all="ignore"):
+            g = np.asarray(call_base(U, fn, X, Y, mp, wind))
+    except Exception as e:
+        return [("base:raises", "source_area_%s raised %s: %s" % (fn, type(e).__name__, e))]
+    bx, by = np.broadcast_arrays(np.asarray(X, dtype=float), np.asarray(Y, dtype=float))
+    if g.shape != bx.shape:
+        return [("base:shape", "source_area_%s returns shape %r for coordinates of shape %r" % (fn, g.shape, bx.shape))]
+    gv = np.asarray(g, dtype=float).ravel()
+    px, py = bx.ravel() - xm, by.ravel() - ym
+    s1 = np.abs(px) + np.abs(py)
+    out = []
+
+    def first_bad(expect, tol, sig, what):
+        if not np.all(np.isfinite(gv)):
+            out.append((sig, "source_area_%s returns non-finite values for finite inputs and a non-zero wind" % fn))
+            return
+        bad = np.nonzero(np.abs(gv - expect) > tol)[0]
+        if bad.size:
+            j = int(bad[0])
+            out.append((sig, "source_area_%s at cell (%r, %r), tower (%r, %r), wind (%r, %r): returns %r, %s = %r"
+                        % (fn, float(bx.ravel()[j]), float(by.ravel()[j]), xm, ym, u, v, float(gv[j]), what, float(expect[j]))))
+
+    def again(wind2=None, X2=None, Y2=None, mp2=None):
+        with np.errstate(all="ignore"):
+            return np.asarray(call_base(U, fn, X if X2 is None else X2, Y if Y2 is None else Y2, mp if mp2 is None else mp2,
+                                        wind if wind2 is None else wind2), dtype=float).ravel()
+
+    if fn == "circular":
+        first_bad(-(px * px + py * py), ORACLE_REL * s1 * s1 + 1e-300, "base:circular-not-distance", "-(squared distance to the tower)")
+        if not out:
+            d = np.hypot(px, py)
+            for a in range(gv.size):
+                nearer = np.nonzero(d[a] < d * (1 - 1e-6))[0]
+                if nearer.size and not np.all(gv[a] > gv[nearer]):
+                    out.append(("base:circular-not-distance", "a cell nearer to the tower does not have the larger value"))
+                    break
+        return out
+    if fn == "upwind":
+        first_bad((px * u + py * v) / sp, ORACLE_REL * s1 + 1e-300, "base:upwind-not-projection", "(cell - tower) . wind / |wind|")
+        if not out:
+            if np.any(np.abs(again((-u, -v)) + gv) > ORACLE_REL * s1 + 1e-300):
+                out.append(("base:upwind-reversal", "reversing the wind does not change the sign of source_area_upwind"))
+            if np.any(np.abs(again((4 * u, 4 * v)) - gv) > ORACLE_REL * s1 + 1e-300):
+                out.append(("base:upwind-scale", "source_area_upwind changes when the wind is multiplied by 4"))
+        return out
+    if fn == "crosswind":
+        perp = (py * u - px * v) / sp
+        first_bad(-(perp * perp), ORACLE_REL * s1 * s1 + 1e-300, "base:crosswind-not-perpendicular-distance",
+                  "-(distance to the wind axis through the tower)^2")
+        if not out:
+            with np.errstate(all="ignore"):
+                gu = np.asarray(U.source_area_upwind(X, Y, mp, wind), dtype=float).ravel()
+            if np.any(np.abs(gu * gu - gv - (px * px + py * py)) > 4 * ORACLE_REL * s1 * s1 + 1e-300):
+                out.append(("base:pythagoras", "source_area_upwind^2 - source_area_crosswind differs from the squared distance to the tower"))
+            if np.any(np.abs(again((-u, -v)) - gv) > ORACLE_REL * s1 * s1 + 1e-300) or np.any(np.abs(again((4 * u, 4 * v)) - gv) > ORACLE_REL * s1 * s1 + 1e-300):
+                out.append(("base:crosswind-reversal", "source_area_crosswind changes when the wind is reversed / multiplied by 4"))
+        return out
+    # sector
+    dot = px * (-u) + py * (-v)
+    cross = py * (-u) - px * (-v)
+    expect = -np.arctan2(np.abs(cross), dot)
+    at_tower = (px == 0) & (py == 0)
+    expect = np.where(at_tower, -abs(math.atan2(-v if v != 0 else 0.0, -u if u != 0 else 0.0)), expect)
+    first_bad(expect, ORACLE_REL, "base:sector-not-angle", "-(angle between cell - tower and the upwind direction -wind)")
+    if not out:
+        if np.any(gv > 0) or np.any(gv < -math.pi - 1e-12):
+            out.append(("base:sector-range", "source_area_sector outside [-pi, 0]"))
+        off = ~at_tower
+        if np.any(off):
+            # mirror image in the wind axis, tower moved to the origin (so that only the displacement is rounded)
+            al = (px * u + py * v) / (sp * sp)
+            mx, my = 2 * al * u - px, 2 * al * v - py
+            g0 = again(X2=px[off], Y2=py[off], mp2=(0.0, 0.0))
+            g1 = again(X2=mx[off], Y2=my[off], mp2=(0.0, 0.0))
+            if np.any(np.abs(g0 - g1) > ORACLE_REL):
+                out.append(("base:sector-symmetry", "source_area_sector differs between a cell and its mirror image in the wind axis"))
+            g2 = again(wind2=(4 * u, 4 * v))
+            if np.any(np.abs(g2 - gv) > ORACLE_REL):
+                out.append(("base:sector-scale", "source_area_sector changes when the wind is multiplied by 4"))
+    return out
+
+
+def oracle_base(rs, hints, thorough):
+    """-> list of {signature, what, replay} for the base functions"""
+    np = _impl()[0]
+    pool = []
+    for h in hints:
+        if h and h.get("kind") == "base":
+            pool.append(dict(h))
+    # hand-picked small inputs first: tower (1, 2), wind (3, 4) [speed 5]; the cells: on the upwind ray, behind the
+    # tower, exactly across on both sides, oblique, the tower itself
+    Xh = [1.0 - 3.0, 1.0 + 6.0, 1.0 - 4.0, 1.0 + 4.0, 6.0, 1.0, -2.5]
+    Yh = [2.0 - 4.0, 2.0 + 8.0, 2.0 + 3.0, 2.0 - 3.0, 2.0, 2.0, 7.0]
+    for fn in BASE_FUNCS:
+        pool.append({"kind": "base", "fn": fn, "X": Xh, "Y": Yh, "mp": [1.0, 2.0], "wind": [3.0, 4.0]})
+        pool.append({"kind": "base", "fn": fn, "X": Xh, "Y": Yh, "mp": [1.0, 2.0], "wind": [0.5, -0.25]})
+        pool.append({"kind": "base", "fn": fn, "X": [[0, 1, 2], [0, 1, 2]], "Y": [[0, 0, 0], [3, 3, 3]], "mp": [1, 0], "wind": [0.0, -2.0],
+                     "x_dtype": "int64", "y_dtype": "int64"})
+    pool.append({"kind": "base", "fn": "contribution", "flx": [[0.125, 0.25], [0.5, 0.125]], "dtype": "float64"})
+    pool.append({"kind": "base", "fn": "contribution", "flx": [[1, 2], [3, 4]], "dtype": "int64"})
+    for c in gen_base_inputs(rs, thorough):
+        bx, by = np.broadcast_arrays(np.asarray(c["X"]), np.asarray(c["Y"]))
+        for fn in BASE_FUNCS:
+            pool.append({"kind": "base", "fn": fn, "X": bx.tolist(), "Y": by.tolist(), "x_dtype": str(bx.dtype), "y_dtype": str(by.dtype),
+                         "mp": [_scalar_json(c["mp"][0]), _scalar_json(c["mp"][1])], "wind": [_scalar_json(c["wind"][0]), _scalar_json(c["wind"][1])]})
+    found = {}
+    n = 0
+    for h in pool:
+        try:
+            res = base_semantics(h)
+        except Exception as e:
+            res = [("oracle:crash-on-input", "%s: %s" % (type(e).__name__, e))]
+        n += 1
+        for sig, text in res:
+            if sig not in found:
+                found[sig] = (text, h)
+    out = []
+    for sig, (text, h) in sorted(found.items()):
+        out.append({"signature": sig, "what": "%s: %s" % (sig, text),
+                    "replay": {"input": h, "how": "bldfm.utils.source_area_%s called on the recorded input and compared with the semantic statement of C20 for this base function (independent float formula, tolerance 1e-9)" % h["fn"]}})
+    return out, n
+
+
 def oracle(ctx, hints):
     np = _impl()[0]
     rs = np.random.default_rng(ctx.rng.getrandbits(64) ^ 0xC20)
@@ -1205,7 +1365,8 @@ def oracle(ctx, hints):
             if sig not in found or case_size(c) < found[sig][0]:
                 found[sig] = (case_size(c), text, c)
     ctx.cov["oracle_inputs_checked"] = checked
-    out = []
+    out, n_base = oracle_base(rs, hints, ctx.thorough)
+    ctx.cov["oracle_base_calls_checked"] = n_base
     for sig, (size, text, c) in sorted(found.items()):
         api = "bldfm.utils.get_source_area(f, g)" if c["kind"] == "gsa" else "bldfm.plotting.footprint.extract_percentile_contour(flx, grid, pct, level)"
         out.append({"signature": sig, "what": "%s: %s" % (sig, text),
@@ -1218,6 +1379,25 @@ def replay(body):
     if "input" not in body:
         print("no concrete input recorded (the model/implementation tie broke without a failing input)")
         return 0
+    if body["input"].get("kind") == "base":
+        h = body["input"]
+        U = _impl()[1]
+        if h["fn"] == "contribution":
+            print("flx (dtype %s) =\n%s" % (h.get("dtype"), np.array(h["flx"], dtype=h.get("dtype", "float64"))))
+        else:
+            X, Y, mp, wind = _base_arrays(h)
+            print("X = %s\nY = %s\ntower = %r, wind = %r" % (X.tolist(), Y.tolist(), mp, wind))
+            try:
+                with np.errstate(all="ignore"):
+                    print("source_area_%s -> %s" % (h["fn"], np.asarray(call_base(U, h["fn"], X, Y, mp, wind)).tolist()))
+            except Exception as e:
+                print("source_area_%s raised %s: %s" % (h["fn"], type(e).__name__, e))
+        res = base_semantics(h)
+        for sig, text in res:
+            print("FAILS  %s: %s" % (sig, text))
+        if not res:
+            print("holds")
+        return 1 if res else 0
     c = case_from_hint(body["input"])
     rs = np.random.default_rng(0)
     if c["kind"] == "gsa":
